@@ -12,8 +12,11 @@ raise UpblkCyclicError.  CL designs: spec/MethodOrder.tla gives the method-level
 M(x) < M(y), M(x) == M(y), U(b) < M(x), M(x) < U(b) an event-level meaning (block starts / ends, method
 invocations by a caller), derives the block-level order from it and TLC shows over all interleavings
 that the two coincide; every block call AND method invocation of generated CL components (update_once
-blocks calling method ports / non-blocking interfaces of children and grandchildren through method
-nets, pass-through methods, == classes, chains, mixed with signals) is recorded under the five pass
+blocks calling method ports / non-blocking / blocking interfaces of children and grandchildren through
+method nets, pass-through methods, == classes on one and on both ends, chains, mixed with signals and net
+steps; blocks that call blocking methods run behind the greenlet tickers of WrapGreenletPass: a grid of
+U<U, WR<RD, WR<net<RD, inverted, M<M, U<M, M<U between greenlet-wrapped, update_once and plain blocks in
+both definition orders, chains of wrapped blocks) is recorded under the five pass
 groups, tie-break seeds, forced linear extensions of pymtl3's own constraint set and the open-loop
 scheduler (top-level methods called by the test bench) and validated by spec/MethodOrderTrace.tla;
 TLC's linear extensions of the specification's order are forced on the real simulator and must give
@@ -23,7 +26,9 @@ constraint cycles and cycles through update_once blocks must be refused by every
 NOTE: footprints, the methods a block invokes and the resolution of method nets come from the design
 descriptor (never from pymtl3's upblk_reads / upblk_writes / upblk_calls).  CL part: a method that
 calls a method declares M(outer) == M(inner) (pymtl3's convention); non-blocking methods are always
-ready; blocking (greenlet) interfaces are not generated; two blocks related only through methods that
+ready and blocking methods return immediately (a greenlet-wrapped block runs to completion once per
+cycle: the wrapping is modelled as transparent, suspended bodies are not generated; the body is observed
+inside its greenlet by the profile hook); two blocks related only through methods that
 no block invokes are left unordered; OpenLoopCLPass is driven as GenDAGPass + WrapGreenletPass +
 OpenLoopCLPass (AutoTickSimPass itself locks the simulation twice and fails on every design) and may
 refuse a cyclic design with any exception; its schedule cannot be overwritten, so forced schedules
@@ -60,4 +65,5 @@ def run(res, tier):
     res.assume("generated designs")
     # ---- CL designs: method-level constraints, update_once, method nets, open loop
     c02_cl.run_phase(res, tier)
-    res.assume("CL: a method that calls a method declares M(outer) == M(inner); non-blocking methods always ready")
+    res.assume("CL: a method that calls a method declares M(outer) == M(inner); non-blocking methods always ready; "
+               "blocking methods return immediately (greenlet-wrapped blocks complete once per cycle)")
